@@ -16,7 +16,7 @@ int g_last_mo;
 #define kIsPowerOfTwo KPOW2
 #define kMask ((size_t)(KBUF - 1))
 typedef struct Ring { size_t head_; size_t tail_; T_cell slots[KBUF]; } Ring;
-typedef struct OpResult { T_cell buf_; T_cell* ptr_; } OpResult;
+typedef struct OpResult { T_cell buf_; int has; } OpResult;   /* detail::OpResult<T>: storage + engaged flag (its own lifetime protocol is C40) */
 
 Ring* g_ring; int g_role;       /* 1 = this thread is the producer, 2 = the consumer, 0 = quiescent (no interference) */
 bool g_bad_order;               /* publication without release / observation without acquire */
@@ -123,6 +123,17 @@ __CPROVER_ensures(!RV ==> (self->head_ == __CPROVER_old(self->head_) && g_T_dest
 __CPROVER_assigns(*self, *storage, g_last_mo, g_bad_order, g_T_destroyed, g_T_constructed)
 #include "Ring_try_pop_into.body.inc"
 
+/* OpResult<T> try_pop(): the element is move-constructed into the returned OpResult (one construction), the slot destroyed, then released */
+static OpResult OpResult_empty(void) { OpResult r; r.has = 0; r.buf_.live = 0; r.buf_.value = 0; r.buf_.moved_from = 0; return r; }
+static OpResult OpResult_from(T_tag v) { OpResult r; r.has = 1; r.buf_.live = 1; r.buf_.value = v; r.buf_.moved_from = 0; g_T_constructed++; return r; }
+OpResult Ring_try_pop_opt(Ring* self)
+__CPROVER_requires(CONSUMER_PRE && (self->head_ != self->tail_ ==> self->slots[self->head_].value == g_head_value))
+__CPROVER_ensures(COMMON_POST)
+__CPROVER_ensures(RV.has ==> (self->head_ == (__CPROVER_old(self->head_) + 1) % kBufferSize && RV.buf_.live == 1 && (g_occupancy0 > 0 ==> RV.buf_.value == g_head_value) && g_T_destroyed == 1))
+__CPROVER_ensures(!RV.has ==> (self->head_ == __CPROVER_old(self->head_) && g_T_destroyed == 0 && RV.buf_.live == 0))
+__CPROVER_assigns(*self, g_last_mo, g_bad_order, g_T_destroyed, g_T_constructed)
+#include "Ring_try_pop_opt.body.inc"
+
 /* ------------- batch operations (iterators rendered as indices into arrays) ------------- */
 #define NSRC (KBUF + 2)
 size_t Ring_try_push_batch(Ring* self, T_cell src[NSRC], size_t first, size_t last)
@@ -183,6 +194,7 @@ void h_Ring_try_push_move(void) { Ring r; mk(&r, 1); T_cell it; it.live = 1; it.
 void h_Ring_try_push_copy(void) { Ring r; mk(&r, 1); T_cell it; it.live = 1; it.moved_from = 0; Ring_try_push_copy(&r, &it); }
 void h_Ring_try_emplace(void) { Ring r; mk(&r, 1); T_tag a; Ring_try_emplace(&r, a); }
 void h_Ring_try_pop_ref(void) { Ring r; mk(&r, 2); T_cell it; it.live = 1; it.moved_from = 0; Ring_try_pop_ref(&r, &it); }
+void h_Ring_try_pop_opt(void) { Ring r; mk(&r, 2); Ring_try_pop_opt(&r); }
 void h_Ring_try_pop_into(void) { Ring r; mk(&r, 2); T_cell st; st.live = 0; Ring_try_pop_into(&r, &st); }
 void h_Ring_try_push_batch(void) { Ring r; mk(&r, 1); T_cell src[NSRC]; for (size_t j = 0; j < NSRC; ++j) { src[j].live = 1; src[j].moved_from = 0; } size_t a, b; Ring_try_push_batch(&r, src, a, b); }
 void h_Ring_try_pop_batch(void) { Ring r; mk(&r, 2); T_cell dst[NSRC]; for (size_t j = 0; j < NSRC; ++j) { dst[j].live = 1; dst[j].moved_from = 0; } size_t m; Ring_try_pop_batch(&r, dst, 0, m); }
